@@ -86,6 +86,17 @@ def gen_big_table(rng, w):
     return (n_ids, [base, base + 251, base + 251 * (k - 1)], strs)
 
 
+def patterned_table(w, target, n_ids=3):
+    """a compact, sorted table whose SECOND string starts at offset `target`: offsets whose little-endian bytes look like
+    text in some encoding (a UTF-8 lead byte followed by a continuation byte, two continuation bytes, a BOM, 0x0A0D ...)"""
+    base = w + w * n_ids
+    filler = "f" * (target - base - 1)
+    return (n_ids, [base, target, target + 6], [filler, "hello", "tail"])
+
+
+PATTERNED_OFFSETS = [0xA9C3, 0x80C2, 0xBFDF, 0x8081, 0xBBEF, 0x0A0D, 0x2020, 0xFEFF - 6, 0x80E2, 0x9FF0]
+
+
 def gen_request(rng: random.Random, table):
     n, offs, strs = table
     req = []
@@ -233,6 +244,11 @@ def gen_cases(rng, n):
         (4, (2, [12, 13], ["abc"]), ["bc", "c"]),   # interior offsets / suffixes
         (2, (2, [6, 6], ["same"]), ["same", ""]),
     ]
+    # offsets whose bytes look like text (the table is binary: nothing may read it as characters)
+    for t in PATTERNED_OFFSETS:
+        for w in (2, 4):
+            for req in (["hello"], ["ello"], ["hello", "brand new", "tail"], ["f" * 5]):
+                cases.append((w, patterned_table(w, t), req))
     return cases
 
 
